@@ -24,6 +24,7 @@ type vxUnencodable struct{ X int }
 //       nBody, pipeCode(0 none, 1 one filter)
 func VX_C03_Frame(args []int) {
 	mtypeMode, methodMode, unknownH, outcome, vetoStage, writeFail, nBody, pipeCode := args[0], args[1], args[2], args[3], args[4], args[5], args[6], args[7]
+	snaps := vxSnapSentinels()
 	var log []string
 	pl := newVxPlugin("rec", &log)
 	p := vxNewPeer(pl)
@@ -101,6 +102,7 @@ func VX_C03_Frame(args []int) {
 	vxAssume(stat.OK())
 	vxWaitIdle()
 
+	vxCheckSentinels(snaps)
 	isCall, isPush := false, false
 	if mtype == TypeCall {
 		isCall = true
